@@ -1,12 +1,16 @@
 import HpxVerif.Lemmas.BmocAnd
+import HpxVerif.Lemmas.BmocNot
 
 /-!
 # C07 — BMOC logical operators implement set algebra on plain MOCs
 
 On plain MOCs (every flag full) the three-valued state is two-valued (`abs`/`full`) and the operators must be
 complement / intersection / union / symmetric difference.  Proved here: `and` is the intersection for all pairs of
-well-formed MOCs and its result is again a MOC (all flags full).  Open statements (model validated by the
-correspondence check, theorems not yet proved): `not_sem`, `or_sem`, `xor_sem`, `moc_canonical`.
+well-formed MOCs and its result is again a MOC (all flags full); **`not` is the complement for every well-formed
+in-range MOC of depth ≤ 29** (`not_sem`; through `go_up` / `go_down` / `dd_4_go_up`, the latter by the highest differing
+bit pair of the two cell numbers), its result is a well-formed in-range MOC (`not_is_moc`, `not_wf`), `not ∘ not = id` and
+`A ∩ Aᶜ = ∅` as corollaries.  Open statements (model validated by the correspondence check on the exhaustive one- and
+two-level universes and random trees, theorems not yet proved): `or_sem`, `xor_sem`, `moc_canonical`.
 -/
 
 namespace Hpx.C07
@@ -62,5 +66,48 @@ theorem and_is_moc (a b : List Cell) (ma : IsMoc a) (mb : IsMoc b) : IsMoc (andC
 
 theorem and_wf (D : Nat) (a b : List Cell) (ha : WF D a) (hb : WF D b) : WF D (andCells a b) :=
   (and_wf_inside D a b ha hb).1
+
+/-- **`not` is the complement on plain MOCs**, for every well-formed in-range MOC of depth `≤ 29` and every cell `x` of the
+    sphere at the reference depth -/
+theorem not_sem (D : Nat) (hD : D ≤ 29) (a : List Cell) (ha : WF D a) (hr : ∀ c ∈ a, InR c) (ma : IsMoc a)
+    (x : Nat) (hx : x < 12 * 4 ^ D) : mem D (notCells a) x ↔ ¬ mem D a x := by
+  unfold mem
+  rw [(notCells_spec D hD a ha hr).1 x hx]
+  rcases stOf_moc ma (D := D) x with h1 | h1 <;> simp [h1, Tri.not]
+
+/-- the complement of a MOC is a MOC (every produced cell is full), well formed and in range -/
+theorem not_is_moc (a : List Cell) (ma : IsMoc a) : IsMoc (notCells a) := by
+  intro c hc
+  rcases mem_notCells_flag a c hc with h | ⟨h1, h2⟩
+  · exact h
+  · rw [ma c h1] at h2; exact absurd h2 (by simp)
+
+theorem not_wf (D : Nat) (hD : D ≤ 29) (a : List Cell) (ha : WF D a) (hr : ∀ c ∈ a, InR c) :
+    WF D (notCells a) ∧ ∀ c ∈ notCells a, InR c :=
+  ⟨(notCells_spec D hD a ha hr).2.1, (notCells_spec D hD a ha hr).2.2⟩
+
+/-- set algebra: double complement, and `A ∩ Aᶜ = ∅` -/
+theorem not_not_sem (D : Nat) (hD : D ≤ 29) (a : List Cell) (ha : WF D a) (hr : ∀ c ∈ a, InR c)
+    (x : Nat) (hx : x < 12 * 4 ^ D) : stOf D (notCells (notCells a)) x = stOf D a x := by
+  obtain ⟨s1, w1, r1⟩ := notCells_spec D hD a ha hr
+  rw [(notCells_spec D hD _ w1 r1).1 x hx, s1 x hx]
+  cases stOf D a x <;> rfl
+
+theorem and_not_empty (D : Nat) (hD : D ≤ 29) (a : List Cell) (ha : WF D a) (hr : ∀ c ∈ a, InR c) (ma : IsMoc a)
+    (x : Nat) (hx : x < 12 * 4 ^ D) : ¬ mem D (andCells a (notCells a)) x := by
+  obtain ⟨s1, w1, _⟩ := notCells_spec D hD a ha hr
+  unfold mem
+  rw [Hpx.Bmoc.and_sem D a (notCells a) ha w1 x, s1 x hx]
+  rcases stOf_moc ma (D := D) x with h1 | h1 <;> simp [h1, Tri.not, Tri.min]
+
+/-- the hypotheses are satisfiable by a non-trivial MOC: `{1/5, 2/40}` at reference depth 2 -/
+example : WF 2 [⟨1, 5, true⟩, ⟨2, 40, true⟩] ∧ (∀ c ∈ [(⟨1, 5, true⟩ : Cell), ⟨2, 40, true⟩], InR c) ∧
+    IsMoc [⟨1, 5, true⟩, ⟨2, 40, true⟩] := by
+  refine ⟨?_, ?_, ?_⟩
+  · simp [WF, lo, hi]
+  · intro c hc; simp only [List.mem_cons, List.not_mem_nil, or_false] at hc
+    rcases hc with rfl | rfl <;> simp [InR]
+  · intro c hc; simp only [List.mem_cons, List.not_mem_nil, or_false] at hc
+    rcases hc with rfl | rfl <;> rfl
 
 end Hpx.C07
